@@ -469,7 +469,25 @@ func flvRead(c *hl.Ctx, f *flvFile, cs flvCase) {
 		l.OneShot = cs.Fault == "oneshot"
 	}
 	swallowed := ""
-	delivered := func(before int) bool { return cs.Fault == "oneshot" && before <= cs.At && l.ReadCalls > cs.At }
+	// an error that arrives together with the last byte an operation needs may be dropped (io.ReadFull/io.CopyN
+	// semantics): success is then legitimate; operation boundaries are the ends of the header parts, of every tag
+	// header and of every tag (body + PreviousTagSize)
+	opEnd := map[int]bool{9: true, 13: true}
+	for i := 1; i < len(f.ends); i++ {
+		opEnd[f.ends[i-1]+11] = true
+		opEnd[f.ends[i]] = true
+	}
+	absorbed := false // the failing read completed what the operation needed and the operation succeeded: legitimate
+	delivered := func(before int) bool {
+		if cs.Fault == "oneshot" && before <= cs.At && l.ReadCalls > cs.At {
+			if cs.Part2 > 0 && opEnd[l.FaultRPos] {
+				absorbed = true
+				return false
+			}
+			return !absorbed
+		}
+		return false
+	}
 	d, _ := flv.NewDemuxer(l)
 	desc := fmt.Sprintf("file with tags %+v (%d bytes, items end at %v), %s at %d (+%d), read mode %d", f.tags, len(f.wire), f.ends, cs.Fault, cs.At, cs.Part2, cs.Mode)
 	var err error
@@ -531,8 +549,11 @@ func flvRead(c *hl.Ctx, f *flvFile, cs flvCase) {
 		}
 		transferred = l.RPos
 	}
+	if absorbed && swallowed == "" {
+		return // the transport healed and the error was legitimately dropped with the last needed byte: nothing further to judge
+	}
 	if swallowed != "" {
-		c.Violation("flv-read/fault-swallowed/"+swallowed, "a transport read failed (0 bytes, error) while "+swallowed+" was in progress and it returned success; "+desc, cs)
+		c.Violation("flv-read/fault-swallowed/"+swallowed, fmt.Sprintf("a transport read failed (%d bytes delivered together with the error, ending at offset %d, which is not the end of what the operation needed) while %s was in progress and it returned success; %s", cs.Part2, l.FaultRPos, swallowed, desc), cs)
 		return
 	}
 	wantHeader := f.ends[0] <= transferred
@@ -636,7 +657,9 @@ func flvFaults(c *hl.Ctx, depth int, idx *int) {
 					for _, part := range []int{0, 2} {
 						flvRead(c, f, flvCase{Part: "flv-read", Tags: tags, Fault: "inject", At: i, Mode: mode, Part2: part})
 					}
-					flvRead(c, f, flvCase{Part: "flv-read", Tags: tags, Fault: "oneshot", At: i, Mode: mode})
+					for _, part := range []int{0, 1, 2, 3} {
+						flvRead(c, f, flvCase{Part: "flv-read", Tags: tags, Fault: "oneshot", At: i, Mode: mode, Part2: part})
+					}
 				}
 			}
 			for j := 0; j < len(f.wsz); j++ {
@@ -744,7 +767,7 @@ func errorsNestings(c *hl.Ctx, depth int) {
 }
 
 func run(c *hl.Ctx) {
-	c.Rule("fault enumeration: RTMP sessions = all item sequences <= d over {1/129/257/9000-byte video, 130-byte command with extended timestamp, user-control packet, Set Chunk Size 4096}; for each: every cut offset 0..len x {whole, 1-byte} reads, an injected error at every transport read call index x {0,3} bytes alongside, the same through ExpectMessage/ExpectPacket at item boundaries, an injected error at every transport write call index x {persistent: later calls fail too, one-shot: later calls are accepted again} x accepted byte counts {0,1,2,half,len-2,len-1,len} of that call returned together with the error (thorough: every count for writes <= 16 bytes, extra interior counts for larger ones); all six handshake methods under cuts and injected errors, the three handshake writers under the same write-fault family; FLV files = all tag sequences <= d over 5 tags (sizes 0,1,255,256,40; timestamps around 2^24 and 2^32-1) under the same faults; errors package = every nesting of {WithStack, Wrap, Wrapf, WithMessage} up to depth 5 over 6 roots. Oracle: items returned before the failure are exactly the completely transferred ones and equal to what was written; non-nil error whose errors.Cause is the transport's error (identity) or io.EOF/io.ErrUnexpectedEOF for a cut; the operation during which a transport Write call returned an error returns a non-nil error with that cause whatever the accepted count and whether or not later calls succeed, and no earlier operation fails; wire after a write failure is a prefix of the fault-free stream. Non-trivial = distinct (session, fault) case that satisfied every clause.")
+	c.Rule("fault enumeration: RTMP sessions = all item sequences <= d over {1/129/257/9000-byte video, 130-byte command with extended timestamp, user-control packet, Set Chunk Size 4096}; for each: every cut offset 0..len x {whole, 1-byte} reads, an injected error at every transport read call index x {0,3} bytes alongside, the same through ExpectMessage/ExpectPacket at item boundaries, an injected error at every transport write call index x {persistent: later calls fail too, one-shot: later calls are accepted again} x accepted byte counts {0,1,2,half,len-2,len-1,len} of that call returned together with the error (thorough: every count for writes <= 16 bytes, extra interior counts for larger ones); all six handshake methods under cuts and injected errors, the three handshake writers under the same write-fault family; FLV files = all tag sequences <= d over 5 tags (sizes 0,1,255,256,40; timestamps around 2^24 and 2^32-1) under the same faults, plus one-shot read faults that deliver 0..3 bytes together with the error (success of the operation in progress is legitimate only when those bytes complete what it needed); errors package = every nesting of {WithStack, Wrap, Wrapf, WithMessage} up to depth 5 over 6 roots. Oracle: items returned before the failure are exactly the completely transferred ones and equal to what was written; non-nil error whose errors.Cause is the transport's error (identity) or io.EOF/io.ErrUnexpectedEOF for a cut; the operation during which a transport Write call returned an error returns a non-nil error with that cause whatever the accepted count and whether or not later calls succeed, and no earlier operation fails; wire after a write failure is a prefix of the fault-free stream. Non-trivial = distinct (session, fault) case that satisfied every clause.")
 	c.Assume("an io.Writer that returns short without an error is a contract breach and not in the alphabet", "a failing Write call may report any accepted count 0..len(p) together with its error (io.Writer contract), and the fault may be transient: the operation in progress must still report it", "after the operation that reported a write failure nothing further is judged (later operations on a one-shot-faulted transport are outside the statement)", "a cut inside the 4-byte PreviousTagSize after a complete FLV tag body is not judged either way", "item boundaries are the wire lengths observed after each fault-free write")
 	idx := 0
 	d := 3
